@@ -30,6 +30,9 @@ def pair_blackout(seed, n):
 def pair_nocredit(seed, n):
     return _mk("ratepair", "hc", lambda r: gen_hc.pair_case(r, use_credit=False, rounds=r.choice([10, 30, 60]))[0], n, seed * 101 + 5)
 
+def ackflood(seed, n):
+    return _mk("ackflood", "hc", gen_hc.ackflood_case, n, seed * 101 + 16)
+
 def hostile(seed, n):
     return _mk("hostile", "hc", gen_hc.hostile_case, n, seed * 101 + 6)
 
